@@ -25,7 +25,16 @@ MANIFEST = dict(
           "scale: made in the same registry, in a second registry whose 145 scales are independent z3 reals, or before / after an edit "
           "of a constituent symbol; spelled differently from or exactly like the unit of the data; at to, in_units, convert_to_units, "
           "to_value, get_conversion_factor, x + y and unyt_quantity(x, object)). Names that read as an SI-2022 prefix (ronna, quetta, "
-          "ronto, quecto) on a prefixable unit are checked against the SI values whenever a tree accepts them. (b) GROUND: each of the 145 table rows (and the prefix table) "
+          "ronto, quecto) on a prefixable unit are checked against the SI values whenever a tree accepts them. ROUTE (C02/route): the definitions "
+          "enter the registry by LOADING instead of by table rows / add / define_unit: UnitRegistry.from_json of current (5-field) and OLD (4-field, "
+          "CGS-valued) text, the body of from_json on parsed rows, _correct_old_unit_registry on a table dict, the unpickling protocol of an array "
+          "(real __reduce__ state with the unit metadata of a current / old 3-tuple / old 2-tuple pickle, real __setstate__; with a real pickle byte "
+          "stream and without), UnitRegistry(lut=...); 17 custom symbols whose dimensions cover integer, negative and half-integer powers of mass / "
+          "length / time, Gaussian and SI electromagnetic dimensions, plus 11 of unyt's own symbols as an old file carries them. Where the route can "
+          "carry a solver term (all but text and byte streams) every row's value is a z3 real and the real code is executed on it: z3 proves "
+          "base_value == value / (1000**p_mass * 100**p_length) (old rows) or == value (current rows) for ALL values, then dimensions, prefixed "
+          "and compound spellings and x.to / from the SI spelling with symbolic x; text / byte-stream routes use concrete values (ground facts for "
+          "scales, solver for the converted payload). (b) GROUND: each of the 145 table rows (and the prefix table) "
           "against an independently written definition table as exact-rational z3 facts |row-def| <= tol*def."),
     design="DESIGN.md section 4 C02",
     technique="symbolic execution of the real Python code over z3 real terms (QF_NRA with root witnesses); ground exact-rational SMT facts; replay")
@@ -53,7 +62,16 @@ EXPLANATION = (
     "object reports the scale of its own definition and result == x*scale1/scale2 for all x and all scales of both registries / epochs. "
     "SI-2022 prefixes: unyt's table has 22 prefix spellings; the harness also carries R, Q, r, q with the SI Brochure values, puts "
     "<prefix><prefixable symbol> candidates into the name universe (a tree that refuses them is outside C02) and reads names the tree's "
-    "own alias generator adds, so an added prefix is checked value by value (names) and as a ground fact (prefix/<p>, prefix word/<p>)."
+    "own alias generator adds, so an added prefix is checked value by value (names) and as a ground fact (prefix/<p>, prefix word/<p>). "
+    "Route axis (C02/route): a registry restored from JSON text or from a pickle defines its symbols by the rows of the file. A current row "
+    "(5 fields) holds the SI scale; an OLD row (4 fields, what unyt 1.x / yt 3 wrote into every dataset) holds the value in CGS base units, so "
+    "the SI scale it implies is value / 10**(3*p_mass + 2*p_length) - written independently in cgs_to_si, half-integer powers included (code_magnetic "
+    "has sqrt(mass)/sqrt(length)); other base dimensions (time, temperature, current_mks) do not rescale. Rows of the file for symbols unyt defines "
+    "itself are the definition of those symbols in the restored registry (and keep unyt's prefixability); symbols the file does not mention get "
+    "unyt's rows. JSON text and pickle bytes cannot hold a solver term: those two routes are GROUND for the scales (concrete rows) and the "
+    "same code is run with symbolic row values one call further in (json-parsed = from_json after json.loads; setstate = pickle's "
+    "_reconstruct + __setstate__ calls on the state tuple). UnitRegistry(lut=..., add_default_symbols=True) adds the default rows OVER the table by "
+    "contract, so rows redefining unyt's own symbols are walked on that route with add_default_symbols=False only."
 )
 ASSUMPTIONS = ["C02/form: the symbolic coefficient v of a quantity-valued unit enters unyt's sympy expression as a positive Symbol whose "
                "registry row is (v, dimensionless) (harness.c02.symbolic_coefficients, a sympy converter active only inside these cases; "
@@ -71,12 +89,16 @@ BOUNDS = {
              "unyt_quantity} with the unit given as a quantity of symbolic coefficient v > 0, x {bytes, Unit, Unit of another registry, sympy "
              "expression}, x 9 coefficient magnitude classes x 2 shapes in strings; UNIT OBJECT: 7 kinds (same / foreign / foreign same spelling / stale "
              "target / stale target same spelling / stale source / stale source same spelling) x 7 entry points, each on one chunk of 2 pairs "
-             "(1 compound chunk, 1 atomic chunk, rotating); ~200 SI-2022 candidate names spread over the name chunks",
+             "(1 compound chunk, 1 atomic chunk, rotating); ~200 SI-2022 candidate names spread over the name chunks; ROUTE: 6 routes x their formats "
+             "(old / old 2-tuple / new / new without defaults) x {17 custom rows, 5 custom + 11 own rows}: every row gets the scale / dimension / "
+             "prefixed / compound obligations in every case; conversions to and from the SI spelling for every row on the concrete routes, for 2 "
+             "slices of 2 rows per case (rotating, old formats starting at the half-integer rows) on the symbolic routes; conversions whose SI "
+             "spelling would need a root of a symbolic base scale are skipped",
     "thorough": "all names; 6000 generated expressions (1-5 factors); 2000 compound pairs (<= 1 square root, |exponent| <= 3); every ordered pair of table symbols sharing a dimension "
                 "(~1100, with SI prefixes on prefixable ones); all rows (ground); define_unit over 5 definition shapes x 7 registry unit systems x 2 forms; "
                 "HISTORY: all names x 3 editing calls, every 4th chunk of the expressions and every 8th chunk of the pairs; ARGUMENT FORM: 96 unit "
                 "expressions x 7 entry points x symbolic coefficient, x 4 non-string forms, x 9 coefficient classes; UNIT OBJECT: 7 kinds x 7 entry "
-                "points x 3 of 8 chunks of 2 pairs (rotating)",
+                "points x 3 of 8 chunks of 2 pairs (rotating); ROUTE: as quick with every slice of 2 rows converted on the symbolic routes",
 }
 OUTSIDE = ("unit strings that unyt rejects (acceptance of documented names is C14); offset units in conversions and compounds (C03/C08); "
            "logarithmic units in compounds; exponents outside E and root denominators > 6; IEEE rounding (A1); correctness of the "
@@ -85,7 +107,9 @@ OUTSIDE = ("unit strings that unyt rejects (acceptance of documented names is C1
            "target in C02/object only, with one edit); the new value of modify given "
            "as a quantity (C12); coefficients of a quantity-valued unit that are zero or negative; the numeric value of a coefficient "
            "written inside a unit STRING is not symbolic (sympy Number): 9 magnitude classes are enumerated, a defect that depends on "
-           "another value of such a coefficient is not seen")
+           "another value of such a coefficient is not seen; ROUTE: row values inside JSON text / pickle byte streams are concrete (17+11 fixed rows); "
+           "offset rows, unit systems other than mks/cgs recorded in a pickle, old rows whose dimension symbols are equal-but-not-identical "
+           "sympy objects from another process; pickling of bare Unit objects (refused by unchanged unyt)")
 CONFORM = {"quick": 12, "thorough": 24}
 CHUNK = 100
 CHUNK_EDITED = 50     # smaller: on a tree where every alias fails, the counterexample models of one case stay affordable
@@ -912,6 +936,246 @@ def make_form_case(entry, k, pairs):
                 budget_s=600, weight=4, max_paths=256)
 
 
+# ------------------------------------------------------------------------------------------------ route axis: loaded registries
+
+# How a definition ENTERS a registry. Rows: (name, CGS/own scale key, powers of mass, length, time, other base dimension, prefixable)
+_H = Fraction(1, 2)
+ROUTE_ROWS = [
+    # custom symbols (what yt wrote into every dataset): integer, negative and half-integer powers, Gaussian EM, SI EM, none
+    ("xrl", 1, 0, 1, 0, None), ("xrm", 1, 1, 0, 0, None), ("xrt", 1, 0, 0, 1, None), ("xrd", 1, 1, -3, 0, None),
+    ("xrp", 1, 1, -1, -2, None), ("xrv", 1, 0, 1, -1, None), ("xrn", 1, 0, -2, 0, None), ("xrk", 1, -1, 0, 2, None),
+    ("xrb", 1, _H, -_H, -1, None), ("xrq", 1, _H, 3 * _H, -1, None), ("xri", 1, _H, 3 * _H, -2, None), ("xre", 1, -_H, -3 * _H, 1, None),
+    ("xrw", 1, 3 * _H, _H, -2, None), ("xrh", 1, 0, 2, 0, "temperature"), ("xra", 1, 0, 1, 0, "current_mks"), ("xrj", 1, 1, 0, -1, "current_mks"),
+    ("xrz", 1, 0, 0, 0, None),
+    # symbols unyt defines itself, as an old file carries them (the row of the FILE is their definition in the restored registry)
+    ("g", 0, 1, 0, 0, None), ("s", 0, 0, 0, 1, None), ("m", 0, 0, 1, 0, None), ("Msun", 0, 1, 0, 0, None), ("erg", 0, 1, 2, -2, None),
+    ("dyn", 0, 1, 1, -2, None), ("G", 0, _H, -_H, -1, None), ("statC", 0, _H, 3 * _H, -1, None), ("K", 0, 0, 0, 0, "temperature"),
+    ("A", 0, 0, 0, 0, "current_mks"), ("pc", 0, 0, 1, 0, None),
+]
+ROUTE_CONCRETE = {"xrl": 1.4065766789943524e26, "xrm": 7.032854288130045e48, "xrt": 1885954521538155.5, "xrd": 2.527210293640965e-30,
+                  "xrp": 1.4057425005421192e-08, "xrv": 1462385995.556577, "xrn": 3.25e-11, "xrk": 4.5e7, "xrb": 8.24114664867782e-06,
+                  "xrq": 4.803e-10, "xri": 2.75e3, "xre": 6.5e-4, "xrw": 12.5, "xrh": 7.0, "xra": 0.125, "xrj": 3.0e5, "xrz": 2.5,
+                  "g": 1.0, "s": 1.0, "m": 100.0, "Msun": 1.98841586e33, "erg": 1.0, "dyn": 1.0, "G": 1.0, "statC": 1.0, "K": 1.0, "A": 1.0,
+                  "pc": 3.0856775809623245e18}
+ROUTES = ["json-text", "json-parsed", "table", "setstate", "pickle", "lut"]
+ROUTE_FORMATS = {"json-text": ("old", "new"), "json-parsed": ("old", "new"), "table": ("old", "new"), "setstate": ("old", "old2", "new"),
+                 "pickle": ("old", "old2", "new"), "lut": ("new", "new-nodefaults")}
+ROUTE_SYMBOLIC = {"json-parsed", "table", "setstate", "lut"}       # text and byte streams cannot carry solver terms: GROUND there
+SQRT10 = 3.1622776601683795
+
+
+def cgs_to_si(s, pm, pl):
+    """independent oracle: a value in g**pm cm**pl ... expressed in kg**pm m**pl ... is s / 10**(3 pm + 2 pl)"""
+    k = 3 * Fraction(pm) + 2 * Fraction(pl)
+    if k.denominator == 1:
+        return s / 10.0 ** int(k) if k >= 0 else s * 10.0 ** int(-k)
+    w = int(k - _H)
+    return (s / 10.0 ** w if w >= 0 else s * 10.0 ** (-w)) / SQRT10
+
+
+def route_dims(D, pm, pl, pt, other, fresh=False):
+    import sympy
+    def base(n):
+        return sympy.Symbol(f"({n})", positive=True) if fresh else getattr(D, n)
+    d = sympy.Integer(1)
+    for n, e in (("mass", pm), ("length", pl), ("time", pt)) + (((other, 1),) if other else ()):
+        e = Fraction(e)
+        if e:
+            d = d * base(n) ** sympy.Rational(e.numerator, e.denominator)
+    return d
+
+
+def route_vec(pm, pl, pt, other):
+    v = {"(mass)": Fraction(pm), "(length)": Fraction(pl), "(time)": Fraction(pt)}
+    if other:
+        v[f"({other})"] = Fraction(1)
+    return {k: e for k, e in v.items() if e}
+
+
+def ref_string(pm, pl, pt, other, names):
+    """the same dimension spelled with the registry's base symbols, e.g. kg**(1/2)*m**(-1/2)*s**(-1)"""
+    parts = []
+    for n, e in zip(names, (pm, pl, pt)):
+        e = Fraction(e)
+        if e:
+            parts.append(f"{n}**({e.numerator}/{e.denominator})" if e.denominator != 1 else f"{n}**({e.numerator})")
+    if other:
+        parts.append({"temperature": "K", "current_mks": "A"}[other])
+    return "*".join(parts) if parts else "dimensionless"
+
+
+def make_route_case(route, fmt, part, rows, conv=None, tag=""):
+    """ROUTE axis: the definitions enter the registry by LOADING - UnitRegistry.from_json of text (current 5-field rows / OLD 4-field rows
+    whose values are in CGS base units), the body of from_json on parsed rows, _correct_old_unit_registry on a table dict, the unpickling
+    protocol of an array (state built by the real __reduce__, restored by the real __setstate__, with and without a byte stream), and
+    UnitRegistry(lut=...). Then the usual obligations on every symbol of the file."""
+    old = fmt.startswith("old")
+    symbolic_route = route in ROUTE_SYMBOLIC
+
+    def h(ctx):
+        import json
+        import pickle
+        unyt = ctx.mods["unyt"]
+        UR = ctx.mods["UR"]
+        D = unyt.dimensions
+        Unit = unyt.Unit
+        from unyt._unit_lookup_table import default_unit_symbol_lut as dflt
+        own_pref = {n: dflt[n][4] for n, *_ in ROUTE_ROWS if n in dflt}
+        # ---- the file: one row per symbol; value symbolic where the route can carry a solver term
+        S, data, E, pref = {}, {}, {}, {}
+        for j, (n, custom, pm, pl, pt, other) in enumerate(rows):
+            if symbolic_route:
+                v = ctx.real(f"v:{n}", pos=True)
+                if not ctx.symbolic:
+                    v = float(v)
+            else:
+                v = ROUTE_CONCRETE[n]
+            S[n] = v
+            if route in ("json-text", "json-parsed"):
+                dims = str(route_dims(D, pm, pl, pt, other))
+            else:
+                dims = route_dims(D, pm, pl, pt, other, fresh=(j % 2 == 1))
+            tex = r"\rm{" + n + "}"
+            if old:
+                data[n] = [v, dims, 0.0, tex]
+                E[n] = cgs_to_si(v, pm, pl)                       # the row's value is in CGS base units
+                pref[n] = own_pref.get(n, False)
+            else:
+                pref[n] = bool(custom) and j % 3 != 2
+                if not custom:
+                    pref[n] = own_pref[n]
+                data[n] = [v, dims, 0.0, tex, pref[n]]
+                E[n] = v                                          # the row's value is the SI scale
+        # ---- the route
+        x0 = ctx.real("x0")
+        restored_q = None
+        if route == "json-text":
+            r = call(UR.UnitRegistry.from_json, json.dumps(data))
+        elif route == "json-parsed":
+            r = call(lambda: UR.UnitRegistry(lut=UR._correct_old_unit_registry(data, sympify=True), add_default_symbols=False))
+        elif route == "table":
+            r = call(lambda: UR.UnitRegistry(lut=UR._correct_old_unit_registry(data), add_default_symbols=False))
+        elif route == "lut":
+            lut = {n: tuple(v) for n, v in data.items()}
+            r = call(lambda: UR.UnitRegistry(lut=lut, add_default_symbols=(fmt == "new")))
+        else:
+            first = rows[0][0]
+            lut = {n: tuple(v) for n, v in data.items()}
+            if not old:
+                for n, v in dflt.items():
+                    lut.setdefault(n, v)
+            if route == "setstate":
+                q0 = ctx.quantity(x0, "s")
+            else:
+                q0 = unyt.unyt_quantity(2.5, "s")
+            red = q0.__reduce__()                                  # the real reduction; only the unit metadata is replaced
+            meta = (first, lut) if fmt == "old2" else (first, lut, "mks" if fmt == "new" else "cgs")
+            state = (meta,) + tuple(red[2][1:])
+
+            def restore():
+                if route == "pickle":
+                    class Old:
+                        def __reduce__(self):
+                            return (red[0], red[1], state)
+                    return pickle.loads(pickle.dumps(Old()))
+                obj = red[0](*red[1])
+                obj.__setstate__(state)
+                return obj
+            r = call(restore)
+            if r[0] == "ok":
+                restored_q = r[1]
+                r = ("ok", restored_q.units.registry)
+        if r[0] == "raise":
+            ctx.require(f"registry restored/{route}/{fmt}", False, exc=type(r[1]).__name__, msg=str(r[1])[:160])
+            return
+        R = r[1]
+        if restored_q is not None:
+            n = rows[0][0]
+            xv = x0 if route == "setstate" else 2.5
+            ctx.require(f"restored array: value and unit scale/{route}/{fmt}",
+                        And(close(payload(restored_q)[0], xv), close(restored_q.units.base_value, E[n])), unit=n)
+        base = ("kg", "m", "s")
+        for n, custom, pm, pl, pt, other in rows:
+            info = dict(symbol=n, route=route, format=fmt, row=str(data[n][:2]))
+            ru = call(Unit, n, registry=R)
+            if ru[0] == "raise":
+                ctx.require(f"restored symbol accepted/{n}", False, exc=str(ru[1])[:120], **info)
+                continue
+            u = ru[1]
+            Eu = oracle_var(ctx, f"e:{n}", E[n])
+            ctx.require(f"scale of a restored symbol == its row ({'CGS value / (1000**p_mass * 100**p_length)' if old else 'SI value'})/{n}",
+                        close(u.base_value, Eu), got=str(u.base_value)[:60], **info)
+            ctx.require(f"dimensions of a restored symbol/{n}", dimvec(u.dimensions) == route_vec(pm, pl, pt, other), got=str(u.dimensions), **info)
+            ctx.observe(f"route/{n}", u.base_value)
+            rk = call(Unit, "k" + n, registry=R)
+            if pref[n]:
+                ctx.require(f"prefixed spelling of a restored symbol/{n}", rk[0] == "ok" and close(rk[1].base_value, 1000 * Eu), got=str(rk[1])[:80], **info)
+            elif rk[0] == "ok" and n != "g":
+                ctx.require(f"prefixed spelling of a restored symbol (accepted although not prefixable)/{n}", close(rk[1].base_value, 1000 * Eu), **info)
+            first = rows[0][0]
+            rc = call(Unit, f"{n}**2/{first}", registry=R)
+            ctx.require(f"compound spelling of a restored symbol/{n}", rc[0] == "ok" and close(rc[1].base_value, oracle_var(ctx, f"c:{n}", E[n] * E[n] / E[first])),
+                        got=str(rc[1])[:80], **info)
+            # conversions with a symbolic payload: to the same dimension spelled in SI base symbols (default rows unless the file
+            # redefines them) and back from it
+            scale_of = {"kg": 1000 * E["g"] if "g" in E else 1.0, "m": E.get("m", 1.0), "s": E.get("s", 1.0), "K": E.get("K", 1.0), "A": E.get("A", 1.0)}
+            ref = ref_string(pm, pl, pt, other, base)
+            Eref = 1.0
+            for b, e in zip(base, (pm, pl, pt)):
+                e = Fraction(e)
+                if e:
+                    Eref = Eref * (scale_of[b] ** (int(e) if e.denominator == 1 else e))
+            if other:
+                Eref = Eref * scale_of[{"temperature": "K", "current_mks": "A"}[other]]
+            if symbolic_route and any(Fraction(e).denominator != 1 and b in ("kg", "m", "s") and (("g" if b == "kg" else b) in E)
+                                      for b, e in zip(base, (pm, pl, pt))):
+                continue        # root of a symbolic base scale in the reference: the scale obligations above already decide this symbol
+            if (conv is not None and n not in conv) or any(b not in R for b in ("kg", "m", "s", "K", "A")):
+                continue        # conversions fork on the symbolic scales: walked for a slice of the rows per case (see route_cases)
+            x = ctx.real(f"x:{n}")
+            rt = call(ctx.quantity(x, n, R).to, ref)
+            ctx.require(f"x.to(SI spelling) == x*scale1/scale2 for a restored symbol/{n}",
+                        rt[0] == "ok" and close(payload(rt[1])[0], oracle_var(ctx, f"t:{n}", x * E[n] / Eref)), to=ref, got=str(rt[1])[:80], **info)
+            rb = call(ctx.quantity(x, ref, R).to, n)
+            ctx.require(f"x.to(restored symbol) == x*scale1/scale2/{n}",
+                        rb[0] == "ok" and close(payload(rb[1])[0], oracle_var(ctx, f"b:{n}", x * Eref / E[n])), frm=ref, got=str(rb[1])[:80], **info)
+        # symbols the file does not mention get unyt's own rows
+        if fmt != "new-nodefaults":
+            for n, val in (("hr", 3600.0), ("km", 1000.0 * E.get("m", 1.0)), ("T", 1.0), ("J", 1.0)):
+                if n in data:
+                    continue
+                ru = call(Unit, n, registry=R)
+                ctx.require(f"symbol absent from the file has unyt's own definition/{n}", ru[0] == "ok" and close(ru[1].base_value, val), got=str(ru[1])[:60])
+    return Case(f"C02/route/{route}/{fmt}/{part}{tag}", h, bounds=f"{len(rows)} rows ({'symbolic' if symbolic_route else 'concrete (GROUND)'} scales), "
+                "scale / dimensions / prefixed / compound / to and from the SI spelling with symbolic payload", budget_s=600, weight=4, max_paths=128)
+
+
+def route_cases(tier):
+    custom = [r for r in ROUTE_ROWS if r[1]]
+    own = [r for r in ROUTE_ROWS if not r[1]]
+    parts = {"custom": custom, "with-own": custom[:3] + custom[8:10] + own}
+    out = []
+    j = 0
+    for route in ROUTES:
+        for fmt in ROUTE_FORMATS[route]:
+            for part, rows in parts.items():
+                if route == "lut" and fmt == "new" and part == "with-own":
+                    continue        # UnitRegistry(lut=..., add_default_symbols=True) ADDS the default rows over the table by contract
+                if route not in ROUTE_SYMBOLIC:
+                    out.append(make_route_case(route, fmt, part, rows))      # concrete scales: no forks, every row converted
+                    continue
+                # symbolic scales: every conversion forks the path, so each case converts a slice of 2 rows (all rows get the scale /
+                # dimension / prefixed / compound obligations in every case); quick walks 2 slices per case, rotating, old formats
+                # starting at the half-integer rows; thorough walks every slice
+                chunks = [rows[i:i + 2] for i in range(0, len(rows), 2)]
+                start = (4 if fmt.startswith("old") else 0) + j
+                picks = range(len(chunks)) if tier == "thorough" else sorted({start % len(chunks), (start + len(chunks) // 2) % len(chunks)})
+                for c in picks:
+                    out.append(make_route_case(route, fmt, part, rows, conv={r[0] for r in chunks[c]}, tag=f"/{c}"))
+                j += 1
+    return out
+
+
 def make_table_case():
     """GROUND: every row of the current table against the independent definition table, as exact rationals"""
     def h(ctx):
@@ -990,8 +1254,8 @@ def make_define_case(system, form, how):
 def cases(tier, mods):
     from unyt._unit_lookup_table import inv_name_alternatives
     from .common import check_names
-    check_names(mods, ["xda", "xdb", "xdnew"])
-    out = [make_table_case()]
+    check_names(mods, ["xda", "xdb", "xdnew"] + [r[0] for r in ROUTE_ROWS if r[1]])
+    out = [make_table_case()] + route_cases(tier)
     for si, system in enumerate(DEFINE_SYSTEMS):
         for fi, form in enumerate(DEFINE_FORMS):
             for how in ("tuple", "quantity"):
